@@ -176,6 +176,23 @@ def build(run):
     # tuple of coefficients, direction = tuple of arguments
     e2e("derivative/tuple (f,u)", lambda: ((f * u[i] * u[i] + f * f * g) * dx, derivative((f * u[i] * u[i] + f * f * g) * dx, (f, u), (vf, vu)),
                                            [{**whole(f, vf), **whole(u, vu)}]))
+    # the same, with the coefficients listed in every order (the pairing coefficient <-> direction must not depend on the
+    # creation order of the coefficients): equal-shaped coefficients, distinct directions
+    v3f = ufl.Argument(S, 3)
+    Ftup = lambda: (f * f * g + g * g * g * h + sin(h) * f) * dx     # noqa: E731
+    dirs = {f: vf, g: v2f, h: v3f}
+    for perm in itertools.permutations((f, g, h)):
+        for k in (2, 3):
+            cs = perm[:k]
+            if k == 2 and cs in ((f, g), (f, h), (g, h)) and run.tier != "thorough":
+                continue        # creation order: covered by derivative/tuple (f,u)
+            tagp = ",".join("fgh"[(f, g, h).index(c_)] for c_ in cs)
+            e2e(f"derivative/tuple listed as ({tagp})", lambda cs=cs: (Ftup(), derivative(Ftup(), cs, tuple(dirs[c_] for c_ in cs)),
+                                                                       [{k_: v_ for c_ in cs for k_, v_ in whole(c_, dirs[c_]).items()}]))
+    e2e("derivative/tuple (u[1], f) components of different coefficients, reverse creation order",
+        lambda: ((f * u[i] * u[i] + u[1] * f * f) * dx, derivative((f * u[i] * u[i] + u[1] * f * f) * dx, (u[1], f), (v2f, vf)),
+                 [{**comp_seed(u, {(1,): (v2f, ())}), **whole(f, vf)}]))
+
     # mixed space coefficient, split, whole derivative
     def mixed():
         mu, mp = split(m)
